@@ -9,6 +9,14 @@ references): every case carries a base input and 2-3 TWINS of it
          through the public API (append_order_list of the expanded, shuffled ballot list: a different construction
          history of the same multiset of ballots),
    (iii) both.
+   Storage of the re-stored twins is DECOUPLED (round 5): the ballot list instance.orders and the multiplicity dict get
+   different orders by in-place operations (list reversed / sorted / shuffled; dict rebuilt in reverse; a key popped and
+   re-inserted), alternatives_name is in arbitrary (non-ascending) order, multiplicities are pairwise different in a third
+   of the cases, and ids / multiplicities are numpy.int64 in two of the eight storage kinds.
+   HISTORIES (flag 4096 on 30% of the ordinal cases, a third of the approval cases): one instance object per variant
+   serves all calls, every function is asked twice, a semantic snapshot (common.snapshot) is taken around every call,
+   every returned object is destroyed in place after copying, and two other profiles over the same ids are put through the
+   same functions before the pair under test.
 All variants of a case are run in the SAME worker call. Demanded (the observables C15 names):
    * equal verdicts of every exact recogniser and equal optima of every optimiser on all variants,
    * winner sets and score tables of a twin = image of the base's under the twin's bijection,
@@ -34,6 +42,7 @@ import random
 
 from core import proto
 from .common import case, guarded, ordinal_instance, rand_perm, rand_weak_order
+from .common import guarded as _guarded
 from . import c03, c04, c05, c06, c07, c11, c12, c13, c14, c18, c19
 
 ID = "C15"
@@ -43,7 +52,10 @@ RULE = ("metamorphic, implementation only: base input + 2-3 twins (relabelled to
         "partition approval profiles and planted C1P matrices, each with and without noise, m <= 30, n <= 60 (PQ-tree, "
         "conflict sets: m <= 10; ILPs and deletion / partition optimisers m <= 7, few); 1-Euclidean: label "
         "permutations of 1..m and storage orders (extremes moved to the middle, reversed, shuffled), m <= 7, n <= 8; "
-        "a case is non-trivial when some twin differs from the base in labels AND in storage order")
+        "a case is non-trivial when some twin differs from the base in labels AND in storage order; re-stored twins have "
+        "the ballot list and the multiplicity dict in different orders (8 storage kinds incl. numpy.int64 ids / "
+        "multiplicities); 30% of the ordinal cases are histories on one object (asked twice, snapshots, poisoned results, "
+        "decoy profiles first)")
 EXHAUSTIVE = {"quick": "", "thorough": ""}
 TRUSTED = ["(R)/(M) as in C03-C07, C11-C14, C18, C19: C15 runs no reference decider; it compares the implementation "
            "with itself on equivalent inputs and validates witnesses with the verified checkers of those properties",
@@ -62,7 +74,11 @@ ASSUMPTIONS = ["relabellings are injective maps to positive integers (is_one_euc
                "theorems about mirrors assume the owners' well-formedness of the profile (duplicate-free alternatives, "
                "every order a permutation of them, at least one order; for sc_algo / eucl_algo also distinct orders)",
                "twins hold the same multiset of ballots over the same alternatives; instance.orders lists the keys "
-               "of instance.multiplicity (C02 invariant), categorical ballots are entries of instance.preferences"]
+               "of instance.multiplicity AS A SET (C02 invariant) - the two orders are deliberately different in the "
+               "re-stored twins; categorical ballots are entries of instance.preferences",
+               "numpy.int64 ids / multiplicities are used because the unchanged tree accepts them in every function C15 "
+               "covers (measured: the campaign is green on /repo)",
+               "histories are not run for the matrix and 1-Euclidean ops (their adapters build their own objects)"]
 TIMEOUT_S = 120.0       # CBC runs with threads = -1 (set by /repo) in up to 16 workers: a loaded machine needs the margin
 CHUNK = 10
 THEOREMS_FOR_OP = {
@@ -79,8 +95,8 @@ THEOREMS_FOR_OP = {
 }
 
 DT = ["soc", "soi", "toc", "toi"]
-(F_SP, F_PQ, F_ILP, F_SC, F_SCC, F_TREE, F_RULES, F_TABLES, F_DELILP, F_DELDP, F_PARTBF, F_AXIS) = (
-    1, 2, 4, 8, 16, 32, 64, 128, 256, 512, 1024, 2048)
+(F_SP, F_PQ, F_ILP, F_SC, F_SCC, F_TREE, F_RULES, F_TABLES, F_DELILP, F_DELDP, F_PARTBF, F_AXIS, F_HIST) = (
+    1, 2, 4, 8, 16, 32, 64, 128, 256, 512, 1024, 2048, 4096)
 EUCL_SEED = 15_000_015
 RULES9 = ["plurality", "veto", "borda", "copeland", "approval", "sav", "fallback", "bucklin"]   # + k-approval per k
 
@@ -109,9 +125,30 @@ def _dedupe(orders, mults):
     return out, ms
 
 
+N_KINDS = 8
+
+
+def _decouple_plan(dict_orders, dict_mults, cshuf):
+    """storage of a twin with the ballot LIST decoupled from the multiplicity DICT (same content):
+    kind 0 coupled; 1 list reversed; 2 list sorted; 3 list shuffled; 4 dict rebuilt in reverse order; 5 first key popped
+    and re-inserted + list reversed; 6 multiplicities numpy.int64; 7 ids and multiplicities numpy.int64 + list reversed.
+    Returns (orders in LIST order, multiplicities aligned with it, kind)"""
+    kind = cshuf % N_KINDS if cshuf else 0
+    lst = list(range(len(dict_orders)))
+    if kind in (1, 5, 7):
+        lst.reverse()
+    elif kind == 2:
+        lst.sort(key=lambda i: dict_orders[i])
+    elif kind == 3:
+        random.Random(cshuf).shuffle(lst)
+    return [dict_orders[i] for i in lst], [dict_mults[i] for i in lst], kind
+
+
 def variants_ord(pl):
-    """[(alts, orders, mults, build, f)]: the base and its twins as they are STORED (orders in storage order);
-    build = None (direct assignment) or the shuffled expanded ballot list handed to append_order_list"""
+    """[(alts, orders, mults, build, f)]: the base and its twins as they are STORED: orders = instance.orders (LIST order),
+    mults aligned with it; build = None (fields assigned directly, list and dict in the same order) or a dict
+    {"exp": shuffled expanded ballot list handed to append_order_list | None, "dict": [(order, mult)] in multiplicity KEY
+    order, "kind": decoupling kind, "seed": its seed}"""
     dt, alts, orders, mults, twins = pl[:5]
     out = [(list(alts), [[list(c) for c in o] for o in orders], list(mults), None, {a: a for a in alts})]
     for fimg, bperm, aperm, mode, cshuf in twins:
@@ -119,13 +156,16 @@ def variants_ord(pl):
         a2 = [f[alts[i]] for i in aperm]
         o2 = [_cshuffle([[f[a] for a in cl] for cl in orders[i]], cshuf, i) for i in bperm]
         m2 = [mults[i] for i in bperm]
-        build = None
+        exp = None
         if mode:
             exp = [o for o, k in zip(o2, m2) for _ in range(k)]
             random.Random(mode).shuffle(exp)
-            build = exp
             o2, m2 = _dedupe(exp, [1] * len(exp))
-        out.append((a2, o2, m2, build, f))
+        lo, lm, kind = _decouple_plan(o2, m2, cshuf)
+        build = None
+        if mode or kind:
+            build = {"exp": exp, "dict": list(zip(o2, m2)), "kind": kind, "seed": cshuf}
+        out.append((a2, lo, lm, build, f))
     return out
 
 
@@ -161,16 +201,76 @@ def variants_eucl(pl):
 def _build_ord(dt, alts, orders, mults, build):
     if build is None:
         return ordinal_instance(list(zip(orders, mults)), data_type=DT[dt], alts=list(alts))
-    from preflibtools.instances import OrdinalInstance
-    inst = OrdinalInstance()
-    for a in alts:
-        inst.alternatives_name[a] = "Alternative " + str(a)
-    inst.num_alternatives = len(alts)
-    inst.append_order_list([tuple(tuple(c) for c in o) for o in build])
+    if build["exp"] is not None:
+        from preflibtools.instances import OrdinalInstance
+        inst = OrdinalInstance()
+        for a in alts:
+            inst.alternatives_name[a] = "Alternative " + str(a)
+        inst.num_alternatives = len(alts)
+        inst.append_order_list([tuple(tuple(c) for c in o) for o in build["exp"]])
+    else:
+        inst = ordinal_instance(build["dict"], data_type=DT[dt], alts=list(alts))
+    kind = build["kind"]
+    # the ballot list and the multiplicity dict now get different orders, by in-place operations (same content)
+    if kind in (1, 5, 7):
+        if kind == 5:
+            k0 = next(iter(inst.multiplicity))
+            v0 = inst.multiplicity.pop(k0)
+            inst.multiplicity[k0] = v0
+        inst.orders.reverse()
+    elif kind == 2:
+        inst.orders.sort()
+    elif kind == 3:
+        random.Random(build["seed"]).shuffle(inst.orders)
+    elif kind == 4:
+        inst.multiplicity = dict(reversed(list(inst.multiplicity.items())))
+    if kind in (6, 7):
+        import numpy as np
+        if kind == 7:
+            conv = lambda o: tuple(tuple(np.int64(x) for x in c) for c in o)
+            inst.multiplicity = {conv(o): k for o, k in inst.multiplicity.items()}
+            inst.orders[:] = [conv(o) for o in inst.orders]
+            inst.alternatives_name = {np.int64(a): nm for a, nm in inst.alternatives_name.items()}
+        for o in list(inst.multiplicity):
+            inst.multiplicity[o] = np.int64(inst.multiplicity[o])
     return inst
 
 
-def _ilp(fn, *a):
+def _poison(x):
+    """destroy a returned object in place: if it aliases internal state of the instance (or of the module) the next
+    snapshot / the next call shows it"""
+    if isinstance(x, tuple):
+        for y in x:
+            _poison(y)
+    elif isinstance(x, list):
+        for y in x:
+            _poison(y)
+        x.clear()
+        x.append(-7)
+    elif isinstance(x, dict):
+        for y in list(x.values()):
+            _poison(y)
+        x.clear()
+        x[-7] = -7
+    elif isinstance(x, set):
+        x.clear()
+        x.add(-7)
+
+
+def _view(res):
+    """the verdict-level part of a result dict (witnesses stripped): what two calls on one object must agree on"""
+    out = {}
+    for k, v in res.items():
+        if k in ("sp", "ilp", "sc", "tree", "delvot", "delalt", "deldp"):
+            out[k] = v[:2]
+        elif k == "partbf":
+            out[k] = [[x[0], x[1], len(x[2]) if x[0] == 0 else 0] for x in v]
+        else:
+            out[k] = v
+    return out
+
+
+def _ilp_outer(fn, *a):
     """python-mip models are freed by the cyclic GC; if that happens while cffi parses a type (set_start, first
     call) Model.__del__ re-enters cffi's non-reentrant lock and the process deadlocks.  Collect before, keep the
     collector off during the call.  (environment, not /repo)"""
@@ -178,7 +278,7 @@ def _ilp(fn, *a):
     gc.collect()
     gc.disable()
     try:
-        return guarded(fn, *a)
+        return fn(*a)                   # fn = guarded call (plain or with the history bookkeeping)
     finally:
         gc.enable()
         gc.collect()
@@ -200,6 +300,26 @@ def _b(r):
 
 
 def _run_ord(dt, alts, orders, mults, build, flags, axes, ks):
+    """one variant.  With F_HIST: ONE instance object serves every call, every function is asked twice (second pass after
+    all the others have run), semantic snapshot before / after each call (common.snapshot: a query must not change the
+    instance), every returned object is destroyed in place right after it has been copied; the two passes must agree"""
+    if not (flags & F_HIST):
+        return _run_ord_once(dt, alts, orders, mults, build, flags, axes, ks, None)
+    shared = {"inst": _build_ord(dt, alts, orders, mults, build), "problems": []}
+    r1 = _run_ord_once(dt, alts, orders, mults, build, flags, axes, ks, shared)
+    if "harness" in r1:
+        return r1
+    r2 = _run_ord_once(dt, alts, orders, mults, build, flags, axes, ks, shared)
+    if not shared["problems"] and _view(r1) != _view(r2):
+        ks_ = [k for k in _view(r1) if _view(r1)[k] != _view(r2).get(k)]
+        shared["problems"].append("second round of calls on the same instance object answers differently: %s: %r then %r"
+                                  % (ks_[0], _view(r1)[ks_[0]], _view(r2).get(ks_[0])))
+    if shared["problems"]:
+        r1["hist"] = shared["problems"][0]
+    return r1
+
+
+def _run_ord_once(dt, alts, orders, mults, build, flags, axes, ks, shared):
     from preflibtools.properties.subdomains.ordinal.singlepeaked import singlepeakedness as SPM
     from preflibtools.properties.subdomains.ordinal import singlecrossing as SCm
     from preflibtools.properties.subdomains.ordinal.singlepeaked.single_peaked_tree import is_single_peaked_on_tree
@@ -208,8 +328,35 @@ def _run_ord(dt, alts, orders, mults, build, flags, axes, ks):
     from preflibtools.aggregation import singlewinner as W
     from preflibtools.properties import pairwisecomparisons as P
 
+    import copy
+    from .common import snapshot, snap_diff
+
     def mk():
-        return _build_ord(dt, alts, orders, mults, build)
+        return shared["inst"] if shared else _build_ord(dt, alts, orders, mults, build)
+
+    def guarded(fn, inst, *a, **kw):              # shadows common.guarded: adds the history bookkeeping
+        if not shared:
+            return _guarded(fn, inst, *a, **kw)
+        before = snapshot(inst)
+        r = _guarded(fn, inst, *a, **kw)
+        rc = copy.deepcopy(r)
+        _poison(r)
+        d = snap_diff(before, snapshot(inst))
+        if d and not shared["problems"]:
+            shared["problems"].append("%s changed the instance it was asked about: %s" % (getattr(fn, "__name__", fn), d))
+        return rc
+
+    def _ilp(fn, *a):
+        return _ilp_outer(lambda *b: guarded(fn, *b), *a)
+
+    def _win(fn, *a):
+        r = guarded(fn, *a)
+        if r[0] == 0:
+            v = r[1]
+            if not isinstance(v, (set, frozenset, list, tuple)):
+                return [1, 5, proto.text(("not a collection: %r" % (v,))[:80])]
+            return [0, sorted(int(x) for x in set(v))]
+        return r
 
     res = {}
     probe = mk()
@@ -251,9 +398,9 @@ def _run_ord(dt, alts, orders, mults, build, flags, axes, ks):
         fns = {"plurality": W.plurality_winner, "veto": W.veto_winner, "borda": W.borda_winner,
                "copeland": W.copeland_winner, "approval": W.approval_winner, "sav": W.satisfaction_approval_winner,
                "fallback": W.fallback_voting_winner, "bucklin": W.bucklin_voting_winner}
-        rr = {nm: c06._win(fns[nm], mk()) for nm in RULES9}
+        rr = {nm: _win(fns[nm], mk()) for nm in RULES9}
         for k in ks:
-            rr["kapp%d" % k] = c06._win(W.k_approval_winner, mk(), k)
+            rr["kapp%d" % k] = _win(W.k_approval_winner, mk(), k)
         res["rules"] = rr
     if flags & F_TABLES:
         res["pairwise"] = c07._wrap(guarded(P.pairwise_scores, mk()), c07._table)
@@ -301,10 +448,41 @@ def _run_ord(dt, alts, orders, mults, build, flags, axes, ks):
     return res
 
 
-def _run_app(alts, ballots, ncat):
+def _run_app(alts, ballots, ncat, hist=0):
     res = {}
     for dom in c05.DOMAINS:
         res[dom] = guarded(c05._run_domain, dom, alts, ballots, ncat)
+    if hist:
+        # ONE categorical instance serves all eight recognisers, twice (second round in reverse order); its multiplicity
+        # dict is rebuilt in another order than the preferences list (odd hist); snapshot around every call; every
+        # returned object destroyed in place; each answer must be the verdict obtained on a fresh instance
+        import copy
+        from .common import snapshot, snap_diff
+        from preflibtools.properties.subdomains.dichotomous import interval, singlecrossing, euclidean, partition
+        fns = {"ci": interval.is_candidate_interval, "cei": interval.is_candidate_extremal_interval,
+               "vi": interval.is_voter_interval, "vei": interval.is_voter_extremal_interval,
+               "wsc": singlecrossing.is_weakly_single_crossing, "de": euclidean.is_dichotomous_euclidean,
+               "part": partition.is_part, "part2": partition.is_2_part}
+        inst = c05._instance(alts, ballots, ncat)
+        if hist % 2:
+            inst.multiplicity = dict(reversed(list(inst.multiplicity.items())))
+        problems = []
+        for rnd in (0, 1):
+            for dom in (c05.DOMAINS if rnd == 0 else c05.DOMAINS[::-1]):
+                before = snapshot(inst)
+                r = guarded(fns[dom], inst)
+                v = [0, int(bool(r[1][0]))] if (r[0] == 0 and isinstance(r[1], tuple) and len(r[1]) >= 2) else r[:2]
+                _poison(r)
+                d = snap_diff(before, snapshot(inst))
+                if d:
+                    problems.append("is_%s changed the instance it was asked about: %s" % (dom, d))
+                fresh = res[dom]
+                fv = [0, fresh[1][0]] if fresh[0] == 0 else fresh[:2]
+                if v != fv:
+                    problems.append("is_%s answers %r on an instance object that has been queried before (round %d), %r on a "
+                                    "fresh one" % (dom, v, rnd, fv))
+        if problems:
+            res["hist"] = problems[0]
     return res
 
 
@@ -313,11 +491,22 @@ def impl(c):
     if op == "c15.ord":
         dt, flags, axes, ks = pl[0], pl[5], pl[6], pl[7]
         out = []
+        if flags & F_HIST:
+            # two OTHER profiles over the same ids go through the same functions first (module-level / default-argument
+            # state must not leak into the pair under test); their answers are not judged
+            dflags = flags & ~(F_ILP | F_DELILP | F_HIST)
+            for decoy in ([o[::-1] for o in pl[2]], [pl[2][0]]):
+                try:
+                    dd, dm = _dedupe(decoy, [2] * len(decoy))
+                    _run_ord(dt, list(pl[1]), dd, dm, None, dflags, axes, ks)
+                except Exception:
+                    pass
         for alts, orders, mults, build, f in variants_ord(pl):
             out.append(_run_ord(dt, alts, orders, mults, build, flags, [[f[a] for a in ax] for ax in axes], ks))
         return out
     if op == "c15.app":
-        return [_run_app(alts, ballots, pl[3]) for alts, ballots, f in variants_app(pl)]
+        hist = pl[4] if len(pl) > 4 else 0
+        return [_run_app(alts, ballots, pl[3], hist + j if hist else 0) for j, (alts, ballots, f) in enumerate(variants_app(pl))]
     if op == "c15.mat":
         return [guarded(c05._run_matrix, pl[0], rows) for rows in variants_mat(pl)]
     if op == "c15.eucl":
@@ -433,6 +622,9 @@ def _judge_ord(c, r, wit):
             return {"kind": "exception", "reason": "variant %d: %r" % (j, rv)}
         if "harness" in rv:
             return {"kind": "broken-correspondence", "reason": "variant %d: %s" % (j, rv["harness"])}
+        if "hist" in rv:
+            return _mm("C15 on histories: a query does not change the instance / its answer does not depend on earlier calls",
+                       "variant %d (0 = base): %s" % (j, rv["hist"]))
     base = r[0]
     for j in range(1, len(r)):
         t, f = r[j], V[j][4]
@@ -533,6 +725,9 @@ def judge(c, r, mres):
         return _judge_ord(c, r, wit)
     if op == "c15.app":
         base = r[0]
+        for j, rv in enumerate(r):
+            if isinstance(rv, dict) and "hist" in rv:
+                return _mm("C15 on histories", "variant %d (0 = base): %s" % (j, rv["hist"]))
         for j in range(1, len(r)):
             for dom in c05.DOMAINS:
                 bad = _same("is_" + dom, dom + "_decide_relabel / " + dom + "_decide_reorder", base[dom], r[j][dom], j,
@@ -633,6 +828,12 @@ def stats(c, r, m):
     b = r[0]
     if op == "c15.ord":
         out += ["ord:m" + _bk(len(pl[1])), "ord:n" + _bk(len(pl[2])), "ord:dt=" + DT[pl[0]]]
+        if pl[5] & F_HIST:
+            out.append("ord:history (one object, asked twice, snapshots, poisoned results, decoys)")
+        for t in pl[4]:
+            out.append("ord:twin storage kind %d" % (t[4] % N_KINDS if t[4] else 0))
+        if len(set(pl[3])) == len(pl[3]) and len(pl[3]) >= 2:
+            out.append("ord:pairwise different multiplicities")
         if isinstance(b, dict):
             for key in ("sp", "pq", "ilp", "sc", "scc", "tree", "cond", "cond_weak"):
                 if key in b:
@@ -654,6 +855,8 @@ def stats(c, r, m):
                 out.append("ord:tables " + ("ok" if b["pairwise"][0] == 0 else "err"))
     elif op == "c15.app":
         out += ["app:m" + _bk(len(pl[0])), "app:n" + _bk(len(pl[1]))]
+        if len(pl) > 4 and pl[4]:
+            out.append("app:history")
         if isinstance(b, dict):
             for dom in c05.DOMAINS:
                 x = b[dom]
@@ -674,11 +877,14 @@ def describe(c):
     if op == "c15.ord":
         return {"data_type": DT[pl[0]], "alternatives": pl[1], "orders (storage order)": pl[2], "multiplicities": pl[3],
                 "twins [new labels of the alternatives, ballot storage order, alternative storage order, "
-                "append_order_list seed (0 = direct), tie-class shuffle seed]": pl[4],
-                "functions (bit flags)": pl[5], "axes for is_single_peaked_axis": pl[6], "k (k-approval)": pl[7]}
+                "append_order_list seed (0 = direct), tie-class shuffle seed s; s %% %d = storage kind: 0 coupled, 1 list "
+                "reversed, 2 sorted, 3 shuffled, 4 dict rebuilt reversed, 5 key popped + re-inserted, 6 numpy multiplicities, "
+                "7 numpy ids]" % N_KINDS: pl[4],
+                "functions (bit flags; 4096 = history on one object)": pl[5], "axes for is_single_peaked_axis": pl[6], "k (k-approval)": pl[7]}
     if op == "c15.app":
         return {"alternatives": pl[0], "approval ballots": pl[1], "num_categories": pl[3],
-                "twins [new labels, ballot order, alternative order, shuffle seed]": pl[2]}
+                "twins [new labels, ballot order, alternative order, shuffle seed]": pl[2],
+                "history seed (0 = none: every call on a fresh instance)": pl[4] if len(pl) > 4 else 0}
     if op == "c15.mat":
         return {"columns": pl[0], "rows": pl[1], "twins [column permutation, row permutation]": pl[2]}
     return {"alternatives": pl[0], "profile": pl[1], "multiplicities": pl[2], "twins [label permutation, ballot order]": pl[3]}
@@ -744,15 +950,16 @@ def shrink(c):
                 yield case(op, with_(4, twins[:k] + [[t[0], sorted(t[1]), sorted(t[2]), t[3], t[4]]] + twins[k + 1:]),
                            **tags)
     elif op == "c15.app":
-        alts, ballots, twins, ncat = pl
+        alts, ballots, twins, ncat = pl[:4]
+        hist = list(pl[4:5])
         for i in range(len(ballots)):
             if len(ballots) > 1:
                 yield case(op, [alts, ballots[:i] + ballots[i + 1:],
-                                [[t[0], _drop_index(t[1], i), t[2], t[3]] for t in twins], ncat], **tags)
+                                [[t[0], _drop_index(t[1], i), t[2], t[3]] for t in twins], ncat] + hist, **tags)
         for i, a in enumerate(alts):
             if len(alts) > 1:
                 yield case(op, [alts[:i] + alts[i + 1:], [[x for x in b if x != a] for b in ballots],
-                                [[t[0][:i] + t[0][i + 1:], t[1], _drop_index(t[2], i), t[3]] for t in twins], ncat],
+                                [[t[0][:i] + t[0][i + 1:], t[1], _drop_index(t[2], i), t[3]] for t in twins], ncat] + hist,
                            **tags)
     elif op == "c15.mat":
         nc, rows, twins = pl
@@ -817,6 +1024,8 @@ def ord_case(rng, alts, orders, mults, flags, axes=(), ks=(), twins=None, **tags
     if dt != 0:
         flags &= ~(F_SP | F_SC | F_SCC | F_TREE | F_DELDP | F_PARTBF)
     tw = twins(len(orders)) if twins else mk_twins(rng, alts, len(orders), sum(mults))
+    if rng.random() < 0.3:
+        flags |= F_HIST
     return case("c15.ord", [dt, list(alts), orders, mults, tw, flags, [list(a) for a in axes], list(ks)],
                 m=len(alts), n=len(orders), **tags)
 
@@ -838,7 +1047,9 @@ def _dedupe_sem(orders, mults):
 
 def rand_mults(rng, n):
     style = rng.random()
-    if style < 0.4:
+    if style < 0.35:
+        return rng.sample(range(1, 3 * n + 3), n)          # pairwise different: a list / dict mix-up changes the profile
+    if style < 0.55:
         return [1] * n
     if style < 0.8:
         return [rng.choice([1, 1, 2, 3, 5]) for _ in range(n)]
@@ -1041,7 +1252,7 @@ def gen_app(rng, tier, count):
             tw.append([twin_labels(rng, m), ident_b, ident_a, 0])
         tw.append([list(alts), rand_perm(rng, ident_b), rand_perm(rng, ident_a), rng.randint(1, 10 ** 6)])
         tw.append([twin_labels(rng, m), rand_perm(rng, ident_b), rand_perm(rng, ident_a), rng.randint(1, 10 ** 6)])
-        out.append(case("c15.app", [alts, ballots, tw, ncat], m=m, n=n,
+        out.append(case("c15.app", [alts, ballots, tw, ncat, rng.randint(1, 9) if i % 3 == 0 else 0], m=m, n=n,
                         gen="planted" if planted else "noisy"))
     return out
 
